@@ -81,3 +81,30 @@ From Verif Require Import LinkFrame.
 Theorem lf_unseal_pinned_refuted : exists chunk, snd (lf_unseal_pinned [] sh_init chunk) = Panic.
 Proof. exists [0;6;1;0;0;0]. reflexivity. Qed.
 Print Assumptions lf_unseal_pinned_refuted.
+
+(* D18: on the pinned tree NextRotateSwitchBlock resliced beyond the block (within the slice's
+   capacity) when the return label did not fit, and so wrote the label's last byte over the
+   byte that follows the switch block in the frame — the high byte of the message length.
+   Witness (found by the C10 harness on a real router): block [210;103], receive label 13266. *)
+From Verif Require Import SwitchLabel.
+Definition rotate_pinned (block extra : list N) (ret : N) : res (N * list N * list N) :=
+  let '(next, n) := uvarint block in
+  if (n =? 0)%Z then Err 1
+  else if (n <? 0)%Z then Err 2
+  else
+    let k := Z.to_nat n in
+    let b1 := skipn k block ++ repeat 0 k in
+    let start := find_slot (next =? 0) b1 in
+    let lab := rev (enc ret) in
+    if Nat.leb (start + length lab) (length block + length extra) then
+      if (0 <? ret) && existsb (fun b => b =? 0) lab then Panic
+      else
+        let all := write_at (b1 ++ extra) start lab in
+        Ok (next mod 65536, firstn (length block) all, skipn (length block) all)
+    else Panic.
+Theorem rotate_pinned_confined_refuted :
+  exists block extra ret next b' e', rotate_pinned block extra ret = Ok (next, b', e') /\ e' <> extra.
+Proof.
+  exists [210; 103], [0; 21], 13266, 13266, [0; 103], [210; 21]. split; [vm_compute; reflexivity|discriminate].
+Qed.
+Print Assumptions rotate_pinned_confined_refuted.
